@@ -210,6 +210,8 @@ def report(res, index, wanted, rule="COPY-1"):
         res.ok(rule, "parallel statements renamed consistently", nontrivial=False)
     if rule == "COPY-1":
         report_chunks(res, index, wanted)
+        from .memokey import report_memo
+        report_memo(res, index, wanted)
 
 
 # ----------------------------------------------------------------------------- CHUNK-1
